@@ -118,6 +118,15 @@ def replay_history(rec, style="block", plain=False, via="set"):
         return ("document", "after %s on %s: %s | got %s" % (
             "; ".join("%s %s%s" % (s["op"], s["dot"], ("=" + s["v"]) if s["op"] in ("set_must", "set_opt") else (" -> *%s %s" % (s["adot"], s["name"])) if s["op"] == "alias" else "") for s in hist),
             text.replace("\n", "|"), d, absdoc.concretise(got, "flow").strip()))
+    # the Processor that made the edits answers queries like a fresh one on the same data (no stale state from the history)
+    from harness import queryobs
+    loc = absdoc.Locator(proc.data)
+    for probe in ["**", "*"] + [s["dot"] for s in hist if s["dot"]]:
+        a = queryobs.run_query(proc.data, loc, probe, "must", proc=proc)
+        b = queryobs.run_query(proc.data, loc, probe, "must")
+        if a["out"] != b["out"] or len(a["hits"]) != len(b["hits"]) or any(x.node is not y.node for x, y in zip(a["hits"], b["hits"])):
+            return ("stale", "after the history the editing Processor answers %r with %s %s, a fresh Processor on the same data with %s %s" % (
+                probe, a["out"], queryobs.describe(loc, a["hits"]), b["out"], queryobs.describe(loc, b["hits"])))
     # the edited document serialises to YAML which reloads (strict loader) to the same data
     try:
         dumped = absdoc.dump(proc.data)
